@@ -101,6 +101,8 @@ class Spec:
             return len(f) >= 1 and len(f) == len(a) and f in self.K
         if op == "cp":
             return True
+        if op == "lk":
+            return 1 <= len(f) <= 3 and len(f) == len(a) and f in self.K
         return False
 
     def trigger(self, op, a):
@@ -248,9 +250,9 @@ def random_history(rng, length, style, allow_trigger):
                 if s.valid(kind, a) and s.trigger(kind, a):
                     do(kind, a)
                     break
-        kind = rng.choices(["av", "ae", "aw", "as", "ab", "rv", "re", "rs", "ce", "cp", "ci"],
+        kind = rng.choices(["av", "ae", "aw", "as", "ab", "rv", "re", "rs", "ce", "cp", "ci", "lk"],
                            [2.0 if nV < 4 else 0.6, 3, 1.5, 3, 1.5, 0.4 if nV > 3 else 0.1, 1.2, 2.5,
-                            2.5 if nV > 3 else 0.5, 0.1, 0.2])[0]
+                            2.5 if nV > 3 else 0.5, 0.1, 0.2, 1.2 if nV > 3 else 0.2])[0]
         a = []
         if kind in ("ae", "aw", "ci"):
             if len(V) < 2:
@@ -260,6 +262,11 @@ def random_history(rng, length, style, allow_trigger):
             if len(V) < 3:
                 continue
             a = sorted(rng.sample(V, min(len(V), rng.choice([3, 3, 3, 4, 4, 5]))))
+        elif kind == "lk":
+            cand = [sorted(t) for t in s.K if len(t) <= 3]
+            if not cand:
+                continue
+            a = rng.choice(cand)
         elif kind in ("ab", "rs"):
             cand = [sorted(t) for t in s.K if (len(t) >= 3 or (kind == "rs" and rng.random() < 0.3))]
             if not cand:
@@ -334,6 +341,10 @@ def boundary_stream():
     # identification of two non-adjacent vertices through contract_edge
     out.append(("identify-square", ["av"] * 4 + ["ae 0 2", "ae 1 2", "ae 1 3", "ae 0 3", "ci 0 1"]))
     out.append(("identify-with-blocker", ["av"] * 5 + ["aw 0 2", "aw 0 3", "aw 2 3", "aw 1 2", "aw 1 3", "aw 1 4", "aw 0 4", "ab 0 2 3", "ci 0 1"]))
+    # links of vertices, edges and triangles in complexes with blockers of several sizes
+    out.append(("links-hollow5", complete(5) + ["ab 0 1 2 3 4", "lk 0", "lk 0 1", "lk 0 1 2", "ab 0 1 2", "lk 0", "lk 3", "lk 0 3", "lk 3 4"]))
+    out.append(("links-k6-blockers", complete(6) + ["ab 0 1 2", "ab 0 3 4 5", "ab 1 3 4", "lk 0", "lk 1", "lk 3", "lk 0 3", "lk 1 2", "lk 4 5",
+                                                    "lk 3 4 5", "lk 2 3 4"]))
     out.append(("constructor-mixed", ["mk 6 ; 0 1 2 3 ; 2 3 4 ; 4 5 ; 0 5", "cp", "ce 4 5", "rs 2 3", "as 0 2 3"]))
     return out
 
@@ -646,7 +657,7 @@ def check(ctx, replay=None):
                 "slots); distinct = distinct operation sequences with at least two operations; after EVERY operation the whole "
                 "observable state (num_vertices/edges/blockers, vertices, edges, blockers, contains() on all subsets of the slots, "
                 "num_simplices, complex_simplex_range, num_connected_components, link_condition of every edge) is compared with the "
-                "extracted transcription and with the extracted abstract complex" % MAXSLOTS)
+                "extracted transcription and with the extracted abstract complex; 'lk' lines observe link(simplex) the same way" % MAXSLOTS)
     res.samples = samples[:8]
     res.extra["max_slots"] = MAXSLOTS
     res.notes.append("exhaustive sub-domain: every sequence of two admissible operations (three on the 4-vertex bases in the thorough "
